@@ -11,6 +11,7 @@ from ..par import pmap
 
 NS = "https://ns.dataone.org/service/types/v2.0#SystemMetadata"
 PIDS = ["pid-1", "doi:10.18739/A2901ZH2M", "ünïcode/pid:✓\U0001F600", "shared", "gone"]
+LONG_PIDS = ["漢" * 1100 + "/v1", "x" * 2047 + "é/v2"]  # UTF-8 longer than the character count
 FORMATS = [None, "fmt://a", "b"]
 CONTENTS = {"c1": pattern(10, 1), "c2": pattern(5000, 2), "c3": b"", "c4": pattern(77, 4)}
 DOCS = {"d1": b"<a/>", "d2": pattern(4100, 8)}
@@ -40,6 +41,13 @@ def _config(cfg):
     store.store_object(PIDS[4], paths["c2"])
     md = store.store_object(None, paths["c4"])
     store.tag_object("tagged", md.cid)
+    # identifiers that happen to be the path of an existing file (absolute, and relative to the cwd) and very long
+    # non-ASCII identifiers: still hashed as UTF-8 strings
+    file_pids = [paths["c1"], os.path.relpath(paths["d1"])] + LONG_PIDS
+    for fp in file_pids:
+        store.store_object(fp, paths["c4"])
+        store.store_metadata(fp, paths["d1"])
+        want[lay.meta_path(fp, NS)] = DOCS["d1"]
     for i, pid in enumerate(PIDS):
         for j, fmt in enumerate(FORMATS):
             doc = "d1" if (i + j) % 2 else "d2"
@@ -54,10 +62,12 @@ def _config(cfg):
     del want[lay.meta_path(PIDS[0], "b")]
     # the predicted tree (independent implementation of the README layout)
     bind = {PIDS[0]: "c1", PIDS[1]: "c2", PIDS[2]: "c3", PIDS[3]: "c1", "tagged": "c4"}
+    for fp in file_pids:
+        bind[fp] = "c4"
     for pid, c in bind.items():
         want[lay.pid_ref_path(pid)] = cid[c].encode()
         want[lay.obj_path(cid[c])] = CONTENTS[c]
-    lists = {"c1": [PIDS[0], PIDS[3]], "c2": [PIDS[1]], "c3": [PIDS[2]], "c4": ["tagged"]}
+    lists = {"c1": [PIDS[0], PIDS[3]], "c2": [PIDS[1]], "c3": [PIDS[2]], "c4": ["tagged"] + file_pids}
     for c, pids in lists.items():
         want[lay.cid_ref_path(cid[c])] = "".join(p + "\n" for p in pids).encode("utf-8")
     got = {r: b for r, b in snapshot(root).items() if b is not None}
